@@ -27,9 +27,22 @@ class Feed:
         self.probes = {}
 
 
-def feed(reader, wire: bytes, cutspec: dict, probe=None) -> Feed:
+def feed(reader, wire: bytes, cutspec: dict, probe=None, bystander=None) -> Feed:
+    """`bystander`: optional (other reader instance, its own byte stream): another connection of the same
+    process whose reader is fed between our calls. Instances must not influence each other."""
     out = Feed()
+    as_bytearray = cutspec.get("as") == "bytearray"
+    other, other_wire, other_pos = (bystander[0], bystander[1], 0) if bystander else (None, b"", 0)
     for idx, chunk in enumerate(fragment.chunks(wire, cutspec)):
+        if other is not None and other_pos < len(other_wire):
+            step = 1 + (idx * 7) % 23
+            try:
+                other.read(other_wire[other_pos : other_pos + step])
+            except Exception:  # noqa: BLE001 - the bystander's own trouble is not judged here
+                other = None
+            other_pos += step
+        if as_bytearray:
+            chunk = bytearray(chunk)  # transports may hand over a bytearray; the reader must not depend on the type
         try:
             msgs = reader.read(chunk)
         except Exception as ex:  # noqa: BLE001 - reported by C14; other checks count the run as void
